@@ -483,8 +483,10 @@ def plugin_trees(r):
     # sizes 57..72 with the excess in different places
     total = r.randint(57, 72)
     where = r.choice(["scalar", "array", "enum", "nested", "two-scalars", "array-of-structs"])
-    en = {"name": "Pe", "values": [("lo", 0), ("hi", r.choice([1, 5, 200, 300]))]}
-    ew = max(1, en["values"][1][1].bit_length())
+    hi = r.choice([0, 1, 5, 200, 300])
+    # (hi == 0: an enum whose only enumerator is 0 still occupies one bit)
+    en = {"name": "Pe", "values": [("lo", 0), ("hi", hi)] if hi else [("lo", 0)]}
+    ew = max(1, hi.bit_length())
     if where == "scalar":
         big = {"name": "Pbig", "fields": [{"name": "a", "id": 0, "type": ("u", min(64, total - 1) if total > 1 else 1)}, {"name": "b", "id": 1, "type": ("u", max(1, total - min(64, total - 1)))}]}
         extra, enums = [big], []
@@ -522,6 +524,12 @@ def plugin_trees(r):
         big = {"name": "Pbig", "fields": [{"name": "n", "id": 0, "type": ("struct", "Pin")}, {"name": "a", "id": 1, "type": ("u", total - 33)}]}
         extra, enums = [inner, big], []
     out.append((T([can("Pbig", "Pbig", a)], extra, enums), "can-size-%d-%s" % (total, where)))
+    # exactly one bit over, the odd bit being an enum with a single enumerator valued 0 (and its 64-bit twin)
+    one = {"name": "Pone", "values": [("only", 0)]}
+    for tot in (64, 65):
+        fs = [{"name": "a", "id": 0, "type": ("u", 32)}, {"name": "b", "id": 1, "type": ("u", tot - 33)}, {"name": "m", "id": 2, "type": ("enum", "Pone")}]
+        r.shuffle(fs)
+        out.append((T([can("Pbig", "Pbig", a)], [{"name": "Pbig", "fields": fs}], [one]), "can-size-%d-single-enumerator" % tot))
     return out
 
 
